@@ -1,4 +1,5 @@
 import OASDriver.Basic
+import OASDriver.LinAlg
 /-
   OASDriver.Ops — one entry per modelled OAS function: decode options/inputs, call the model,
   flatten the outputs in numpy (C) order.
@@ -354,6 +355,136 @@ def opGeometryChain : Op K := fun n a =>
   let m := mesh a8 0 ny
   outMesh #[] nx ny (Geo.rotate nx ny sym true pos m (vec a oTw))
 
+/-! ### VLM -/
+
+/-- decode the surface list: ints `ns, (nx ny sym left ground)*`; meshes are consecutive in `a` from `off` -/
+def vlmSurfs (n : Array Nat) (i0 : Nat) (a : Array K) (off : Nat) : List (VLM.Surf K) × Nat := Id.run do
+  let ns := n.getD i0 0
+  let mut l : List (VLM.Surf K) := []
+  let mut o := off
+  for s in [0:ns] do
+    let nx := n.getD (i0 + 1 + 5*s) 0; let ny := n.getD (i0 + 2 + 5*s) 0
+    l := l ++ [{ nx := nx, ny := ny, sym := flag n (i0 + 3 + 5*s), left := flag n (i0 + 4 + 5*s),
+                 ground := flag n (i0 + 5 + 5*s), mesh := mesh a o ny }]
+    o := o + 3 * nx * ny
+  return (l, o)
+
+/-- ints: ns (nx ny sym left ground)* ; floats: meshes → coll_pts[N,3] force_pts[N,3] bound_vecs[N,3] -/
+def opCollocationPoints : Op K := fun n a =>
+  let (surfs, _) := vlmSurfs n 0 a 0
+  Id.run do
+    let mut c : Array K := #[]; let mut f : Array K := #[]; let mut b : Array K := #[]
+    for s in surfs do
+      for i in [0:s.nx-1] do
+        for j in [0:s.ny-1] do
+          c := pushV3 c (VLM.collPt s i j); f := pushV3 f (VLM.forcePt s i j); b := pushV3 b (VLM.boundVec s i j)
+    return c ++ f ++ b
+
+/-- ints: 1 nx ny sym left ground ; floats: alpha_rad h mesh → vortex_mesh -/
+def opVortexMesh : Op K := fun n a =>
+  let (surfs, _) := vlmSurfs n 0 a 2
+  match surfs with
+  | [] => #[]
+  | s :: _ =>
+    let rows := if s.ground then 2 * s.nx else s.nx
+    let cols := if s.sym then 2 * s.ny - 1 else s.ny
+    outMesh #[] rows cols (VLM.vortexMesh s (at_ a 0) (at_ a 1))
+
+/-- ints: 1 nx ny sym left ground npts ; floats: alpha_deg vectors[npts, nxv, nyv, 3] → vel_mtx[npts,nx-1,ny-1,3]
+    (`vectors = eval point − vortex mesh`, so the model is called with `p = 0`, `vm = −vectors[p]`) -/
+def opEvalVelMtx : Op K := fun n a =>
+  let (surfs, _) := vlmSurfs n 0 a 0
+  let npts := n.getD 6 0
+  match surfs with
+  | [] => #[]
+  | s :: _ =>
+    let rows := if s.ground then 2 * s.nx else s.nx
+    let cols := if s.sym then 2 * s.ny - 1 else s.ny
+    Id.run do
+      let mut o : Array K := #[]
+      for p in [0:npts] do
+        let vm : Mesh K := fun i c => -(mesh a (1 + 3 * p * rows * cols) cols i c)
+        for i in [0:s.nx-1] do
+          for j in [0:s.ny-1] do
+            o := pushV3 o (VLM.velMtx s (at_ a 0) vm 0 i j)
+      return o
+
+/-- ints: ns (nx ny)* ; floats: circulations[N] → horseshoe_circulations[N] -/
+def opHorseshoe : Op K := fun n a =>
+  let ns := n.getD 0 0
+  let surfs : List (VLM.Surf K) := (List.range ns).map fun s =>
+    { nx := n.getD (1 + 2*s) 0, ny := n.getD (2 + 2*s) 0, sym := false, left := true, ground := false, mesh := fun _ _ => 0 }
+  outVec #[] (VLM.totalPanels surfs) (VLM.horseshoe surfs (vec a 0))
+
+/-- floats: alpha beta v → freestream (one row); rotational part is added by the caller -/
+def opConvertVelocity : Op K := fun n a =>
+  let npts := n.getD 0 0; let rot := flag n 1
+  let f : VLM.Flow K := { alpha := at_ a 0, beta := at_ a 1, v := at_ a 2, rho := 0, omega := 0, cg := 0, h := 0, rotational := false }
+  let d := VLM.freestreamDir f
+  Id.run do
+    let mut o : Array K := #[]
+    for p in [0:npts] do
+      o := pushV3 o (if rot then d + pts a 3 p else d)
+    return o
+
+/-- ints: npts ; floats: cg[3] omega[3] coll_pts[npts,3] → rotational_velocities -/
+def opRotationalVelocity : Op K := fun n a =>
+  let npts := n.getD 0 0
+  outPts #[] npts (fun p => V3.cross (pts a 3 0) (pts a 6 p - pts a 0 0))
+
+/-- ints: N ; floats: rho horseshoe[N] velocities[N,3] bound_vecs[N,3] → panel_forces[N,3] -/
+def opPanelForces : Op K := fun n a =>
+  let N := n.getD 0 0
+  outPts #[] N (fun m => V3.smul (at_ a 0 * at_ a (1 + m)) (V3.cross (pts a (1 + N) m) (pts a (1 + 4 * N) m)))
+
+/-- the whole `VLMStates` pipeline.
+    ints: rotational, ns (nx ny sym left ground)* ; floats: alpha beta v rho omega[3] cg[3] h meshes…
+    → circulations[N], panel forces[N,3], mtx[N,N], rhs[N] -/
+def opVLMStates : Op K := fun n a =>
+  let rot := flag n 0
+  let (surfs, _) := vlmSurfs n 1 a 11
+  let f : VLM.Flow K := { alpha := at_ a 0, beta := at_ a 1, v := at_ a 2, rho := at_ a 3, omega := pts a 4 0, cg := pts a 7 0,
+                          h := at_ a 10, rotational := rot }
+  let N := VLM.totalPanels surfs
+  -- materialise the vortex meshes (they are referenced O(N²) times)
+  let surfsM : List (VLM.Surf K) := surfs
+  let vms : Array (Array K) := (surfsM.map fun s =>
+      outMesh #[] (if s.ground then 2 * s.nx else s.nx) (if s.sym then 2 * s.ny - 1 else s.ny)
+        (VLM.vortexMesh s (deg2rad f.alpha) f.h)).toArray
+  -- influence with materialised vortex meshes (same definition as `VLM.influence`)
+  let infl := fun (p : V3 K) (m : Nat) => Id.run do
+    let mut off := 0
+    let mut k := 0
+    let mut res : V3 K := 0
+    let mut found := false
+    for s in surfsM do
+      if !found then
+        if m < off + s.npanels then
+          let l := m - off
+          let cols := if s.sym then 2 * s.ny - 1 else s.ny
+          let vm := mesh (vms.getD k #[]) 0 cols
+          res := VLM.velMtx s f.alpha vm p (l / (s.ny - 1)) (l % (s.ny - 1))
+          found := true
+        off := off + s.npanels
+        k := k + 1
+    return res
+  let locs : Array (VLM.Surf K × Nat × Nat) := (Array.range N).filterMap fun m => VLM.locate surfs m
+  let A : Array (Array K) := locs.map fun (s, i, j) =>
+    (Array.range N).map fun m => V3.dot (infl (VLM.collPt s i j) m) (VLM.normal s i j)
+  let b : Array K := (Array.range N).map fun m => VLM.rhs surfs f m
+  let g := gaussSolve N A b
+  let gamma := fun m => at_ g m
+  -- forces, with the materialised influence
+  let forces : Array (V3 K) := locs.mapIdx fun m (s, i, j) =>
+    let vel := VLM.onset f (VLM.collPt s i j)
+      + V3.sumTo N (fun k => V3.smul (gamma k) (infl (VLM.forcePt s i j) k))
+    V3.smul (f.rho * VLM.horseshoe surfs gamma m) (V3.cross vel (VLM.boundVec s i j))
+  Id.run do
+    let mut o : Array K := g
+    for v in forces do o := pushV3 o v
+    for r in A do o := o ++ r
+    return o ++ b
+
 def ops : List (String × Op K) := [
   ("ComputeNodes", opComputeNodes),
   ("LoadTransfer", opLoadTransfer),
@@ -398,7 +529,15 @@ def ops : List (String × Op K) := [
   ("Shear", opShear),
   ("Stretch", opStretch),
   ("Rotate", opRotate),
-  ("GeometryChain", opGeometryChain)
+  ("GeometryChain", opGeometryChain),
+  ("CollocationPoints", opCollocationPoints),
+  ("VortexMesh", opVortexMesh),
+  ("EvalVelMtx", opEvalVelMtx),
+  ("Horseshoe", opHorseshoe),
+  ("ConvertVelocity", opConvertVelocity),
+  ("RotationalVelocity", opRotationalVelocity),
+  ("PanelForces", opPanelForces),
+  ("VLMStates", opVLMStates)
 ]
 
 end OAS.Driver
